@@ -15,7 +15,7 @@ with iutil.FreshDB() as db:
         p = os.path.join(db.dir, 'scan_%d.xml' % k)
         if job.get('resource') is not None:
             try:
-                lmf.dump(job['resource'], p, version=job['version'])
+                lmf.dump(dict(job['resource'], lmf_version=job['version']), p)
             except Exception as e:
                 out.append({'dump_error': iutil.errname(e)})
                 continue
